@@ -667,6 +667,43 @@ def b_vocabulary(tier, seed):
                             msgs = m.validate(d)
                             if msgs:
                                 fails.append(dict(key=f"validate:{cell}:{ctx}", messages=[x["error"][:80] for x in msgs][:2]))
+    # block-valued and repeatable keywords (child objects, key-value blocks, PROJECTION, POINTS, PATTERN, CONFIG,
+    # PROCESSING/FORMATOPTION/COMPFILTER/INCLUDE) in every position of every type that lists them
+    for typ in SC.object_types():
+        if typ == "symbolset":
+            continue
+        keys = gen.simple_keys(typ)
+        for key, kind in gen.block_keys(typ):
+            if kind in ("children", "child") and gen.PLURAL.get(key, key) not in SC.object_types():
+                continue
+            for position in ("first", "middle", "last"):
+                node = gen.minimal(typ)
+                fillers = [k for k in keys if k not in [a for a, _, _ in node.items] and gen.alternatives(typ, k)][:2]
+                fa = [(k, "simple", gen.alternatives(typ, k)[0]) for k in fillers]
+                try:
+                    item = (key, kind, gen.sample_payload(typ, key, kind))
+                except ValueError:
+                    continue
+                base = list(node.items)
+                node.items = {"first": [item] + base + fa, "middle": base + fa[:1] + [item] + fa[1:], "last": base + fa + [item]}[position]
+                cell = f"{typ}.{key}:{kind}:{position}"
+                n += 1
+                text = gen.render(node)
+                want = plain(gen.to_dict(node))
+                try:
+                    d = m.loads(text, expand_includes=False)
+                except Exception as ex:
+                    fails.append(dict(key=f"parse-block:{cell}", text=text, error=_exc(ex)[:120]))
+                    continue
+                if plain(d) != want:
+                    fails.append(dict(key=f"value-block:{cell}", text=text, diff=_diff(want, plain(d))))
+                    continue
+                try:
+                    back = m.loads(m.dumps(d), expand_includes=False)
+                    if norm(back) != norm(d):
+                        fails.append(dict(key=f"print-reload-block:{cell}", diff=_diff(norm(d), norm(back))))
+                except Exception as ex:
+                    fails.append(dict(key=f"print-reload-block:{cell}", error=_exc(ex)[:120]))
     # create(type, version): prints, re-loads and validates apart from missing required keywords
     import tables
     versions = [None] + (tables.representative_versions() if tier == "thorough" else tables.version_bounds())
